@@ -9,7 +9,7 @@ REPLAYS = os.environ.get("VERIF_REPLAYS", os.path.join(VERIF, "replays"))
 KNOWN = os.path.join(VERIF, "known_findings.txt")
 SCRATCH = os.path.join(os.environ.get("VERIF_BUILD", os.path.join(VERIF, "build")), "scratch")
 
-ASAN_ENV = {"ASAN_OPTIONS": "detect_leaks=0:abort_on_error=0:exitcode=99:allocator_may_return_null=1",
+ASAN_ENV = {"ASAN_OPTIONS": "detect_leaks=0:abort_on_error=0:exitcode=99:allocator_may_return_null=1:max_malloc_fill_size=65536:malloc_fill_byte=165",
             "UBSAN_OPTIONS": "print_stacktrace=1:halt_on_error=1:exitcode=98"}
 
 
